@@ -10,8 +10,9 @@ DECIDES = ('On the FSM of HyperRAMInterface, states identified by role (write st
            'end states go unconditionally to the initial state), registered outputs evaluated exactly under last-assignment-'
            'wins: (a) the words put on phy.dq.o by the chain of command states, high word first, one cycle each, are bit for '
            'bit {~perform_write, register_space, ~single_page, address[31:3], 13 zero bits, address[2:0]} of the inputs as '
-           'latched when the transfer was accepted (every source bit is a register written only in the initial state '
-           'under the accepting guard), 48 bits in total; (b) phy.dq.e is 1 after every command state and the write state '
+           'latched when the transfer was accepted (every source bit is a register loaded by one assignment in the accepting '
+           'cycle and not written again before the last command word is out; the R/W# and space flags never outside the '
+           'initial state), 48 bits in total; (b) phy.dq.e is 1 after every command state and the write state '
            'and 0 after every other state; phy.rwds.e is 0 after every state except the write state of a memory-space '
            'transfer; (c) phy.cs is 1 after the accepting cycle, never cleared in any state before the transaction ends, '
            '0 after an idle cycle that does not accept, and 0 after every cycle that returns to the initial state (so two '
@@ -352,7 +353,17 @@ def run(ctx):
     ctx.ob('C53.ca-length', CLS + '.ca.total-bits', len(word) == CA_BITS and all(len(b) == len(sent[0]) for b in sent), fsm.state_loc[chain[0]],
            'the command states must send %d bits in equal words, high word first; they send %s bits' % (CA_BITS, [len(b) for b in sent]))
     word = (word + [None] * CA_BITS)[:CA_BITS]
-    # latches: every source register is written only on acceptance
+    # latches: every source register takes its value from the inputs in the accepting cycle and is not written again
+    # before the last command word has been put on the bus
+    phase = set()
+    work = [acc.dst]
+    while work:
+        s = work.pop()
+        if s in phase or s not in fsm.states:
+            continue
+        phase.add(s)
+        if s != last:
+            work += [e.dst for e in fsm.out_edges(s)]
     latch_rhs = {}
     latch_ok = {}
     for b in word:
@@ -361,11 +372,20 @@ def run(ctx):
         x = b[1]
         ds = ir.drivers(x, exact=True)
         ok = len(ds) >= 1 and len(ir.drivers(x)) == len(ds) and all(
-            d.domain == fsm.domain and d.state == (fsm.id, init) and d.lhs.op == 'sig' and q.atoms(d) <= q.atoms(acc) for d in ds)
-        ok = ok and len({d.rhs.canon() for d in ds}) == 1
-        latch_ok[x] = (ok, ds)
+            d.domain == fsm.domain and d.state is not None and d.state[0] == fsm.id and d.lhs.op == 'sig' for d in ds)
+        why = 'not a register written inside the FSM (live input?)' if not ok else ''
+        win = None
         if ok:
-            rb = _bits(ir, ds[0].rhs)
+            late = [d for d in ds if d.state[1] in phase]
+            winners = {id(w): w for _, w, _ in _wins(ctx, ir, fsm, x, init, acc_env)}
+            win = list(winners.values())[0] if len(winners) == 1 else None
+            if late:
+                ok, why = False, 'rewritten during the command phase: %s' % [q.fmt(d) for d in late]
+            elif win is None:
+                ok, why = False, 'not loaded by exactly one assignment in the accepting cycle: %s' % [q.fmt(d) for d in ds]
+        latch_ok[x] = (ok, ds, why)
+        if ok:
+            rb = _bits(ir, win.rhs)
             w = ir.signals[x].w if x in ir.signals else None
             if rb is not None and w is not None:
                 latch_rhs[x] = (rb + [('c', 0)] * w)[:w]
@@ -387,10 +407,9 @@ def run(ctx):
                 loc = latch_ok[x][1][0].loc
         if name != 'reserved' or srcs:
             ctx.ob('C53.ca-latched', '%s.ca.%s.latched' % (CLS, name), not bad and bool(srcs), loc or fsm.state_loc[chain[0]],
-                   'command bits %d:%d must come from registers written only in the initial state under the accepting '
-                   'guard (latched, not live): sources %s, offending %s' % (
-                       hi - 1, lo, srcs or 'none (constant)',
-                       [(x, [q.fmt(d) for d in latch_ok[x][1]] or 'not a register (live input?)') for x in bad]))
+                   'command bits %d:%d must come from registers loaded in the accepting cycle and not written again before '
+                   'the last command word is out (latched, not live): sources %s, offending %s' % (
+                       hi - 1, lo, srcs or 'none (constant)', [(x, latch_ok[x][2]) for x in bad]))
         ctx.ob('C53.ca-layout', '%s.ca.%s' % (CLS, name), resolved[lo:hi] == exp[lo:hi], loc or fsm.state_loc[chain[0]],
                'command bits %d:%d as sent (in terms of the inputs at acceptance) are %s, HyperBus requires %s' % (
                    hi - 1, lo, _show_range(resolved[lo:hi]), _show_range(exp[lo:hi])))
@@ -427,6 +446,11 @@ def run(ctx):
                'command bits 47/46 are not single latched 1-bit registers (%s, %s): the FSM decisions that must agree with '
                'the command word cannot be tied to it' % (_show(word[47]), _show(word[46])))
         return
+    for nm, x in (('rw', rw_sig), ('space', sp_sig)):
+        late = [d for d in latch_ok[x][1] if d.state != (fsm.id, init)]
+        ctx.ob('C53.flags-stable', '%s.ca.%s.stable' % (CLS, nm), not late, late[0].loc if late else latch_ok[x][1][0].loc,
+               'the latched %s bit of the command steers latency, data direction and RWDS drive for the whole transaction '
+               'and must not be written outside the initial state: %s' % (nm, [q.fmt(d) for d in late]))
     READ, WRITE = {rw_sig: rw_read}, {rw_sig: not rw_read}
     REG, MEM = {sp_sig: sp_reg}, {sp_sig: not sp_reg}
     v, loc = _vals(ctx, ir, fsm, RWE, wr, REG, allowed={'0'})
